@@ -204,3 +204,44 @@ Qed.
    parsers it is false (C03_unreachable_state_panics); its provable content is C03_no_panic. *)
 Definition C03_units_no_panic_full : Prop := forall P prs skip s,
   fst (next_data P prs skip s) <> Panic.
+
+(* ---- isPSIComplete IS the source ----
+   Gen/DemuxGen.v (Section PsiComplete) is translated from the current /repo/data.go on every run
+   (go/gen/demuxgen.go): the payload-length loop, bytesPool.get, the copy loop, the walk over the section headers
+   (`for i.HasBytesLeft()` with its break and early returns) and the final comparison. is_psi_complete, through which
+   every theorem above (and C02 / C06 / C07) sees isPSIComplete, is that regenerated function: for every world and
+   every bytesPool.get that returns a slice of the requested length, on payload bytes in 0..255, with fuel
+   S (payload length) the generated function terminates with exactly is_psi_complete (no panic, fuel not exhausted).
+   A "fast path", a changed mask or a reordered test in isPSIComplete breaks this proof; no generated case has to
+   reach it. *)
+Require Import Gen.DemuxGen Proofs.DemuxGenEqPsi.
+
+Theorem C03_psi_complete_is_source : forall (W : Type) (get : W -> Z -> outcome (list Z * W)),
+  (forall w n, 0 <= n -> exists bs w', get w n = Done (bs, w') /\ Z.of_nat (length bs) = n) ->
+  forall ps w, bytes_ok (concat_payload ps) ->
+  exists w', isPSIComplete W get ps (S (length (concat_payload ps))) w = Done (is_psi_complete ps, w').
+Proof. exact psi_complete_is_generated. Qed.
+Print Assumptions C03_psi_complete_is_source.
+
+(* ---- NextData, whose termination and panic-freedom the theorems above establish, IS the source ----
+   (the same statement as C02_next_data_is_source; Proofs/DemuxGenEqData.v.)  `ps == nil` in place of `len(ps) == 0`
+   after addUnlocked, a break / continue slip in the end-of-stream dump loop, an error compared with errors.Is instead
+   of ==: each changes Gen/DemuxGen.v (or makes the translator refuse NextData) and this proof stops checking. *)
+Require Import Proofs.DemuxGenEq Proofs.DemuxGenEqData.
+
+Theorem C03_next_data_is_source : forall (err_of : Z -> gerr),
+  (forall c, gerr_eqb (err_of c) e_nomore = (c =? E_nomore)) -> (forall c, code_x (err_of c) = norm c) ->
+  forall P prs skip s f2, (length (d_pool s) + nd_fuel s < f2)%nat ->
+  match Demuxer_NextData mworld unit unit gpb pool unit unit pm_set_m ctx_err_m (new_pb_m err_of) (pb_next_m err_of)
+          pool_dump_m (parse_data_m err_of P) pool_add_m
+          tt (d_buffer s) tt (d_opt_size s) (go_prs err_of prs) (go_sk skip) (with_sk skip (d_pb s)) (d_pool s) tt tt
+          (nd_fuel s) f2 (world_of s) with
+  | Done (buf', pb', pl', d, err, w') =>
+      res_rel d err (fst (next_data P prs skip s)) /\
+      pb' = with_sk skip (d_pb (snd (next_data P prs skip s))) /\
+      snd (next_data P prs skip s) = state_of buf' (d_pb (snd (next_data P prs skip s))) pl' (d_opt_size s) w'
+  | Panicked => fst (next_data P prs skip s) = Panic
+  | OutOfFuel => fst (next_data P prs skip s) = Err E_generic
+  end.
+Proof. exact next_data_is_generated. Qed.
+Print Assumptions C03_next_data_is_source.
